@@ -149,12 +149,25 @@ impl BlockWriter {
         }
 
         let mut offset: usize = 0;
+        let mut stalled = false;
         loop {
             let size = self.decoder.as_mut().unwrap().write(&pkt[offset..])?;
             self.decoder_read(writer, now)?;
             offset += size;
             if offset == pkt.len() {
                 break;
+            }
+
+            if size == 0 {
+                if stalled {
+                    // The decoder does not consume data anymore (content is complete or the
+                    // compressed stream is finished), the remaining bytes cannot be decoded
+                    log::debug!("Decoder is stalled, skip {} bytes", pkt.len() - offset);
+                    break;
+                }
+                stalled = true;
+            } else {
+                stalled = false;
             }
         }
         Ok(())
